@@ -267,6 +267,11 @@ def check_property(prop, tier="quick", seed=0, only=None, verbose=False):
             guard["canaries"][cls] = f"solver refuted but native replay did not: {rr}"
     for cls, ok in canary_ok.items():
         if not ok and not errors:
+            if any(v[2] == cls for v in violations):
+                # the contract already reports a violation: the behaviour under contract changed, so its canary (a statement
+                # chosen to be false of the UNCHANGED behaviour) says nothing about the engine any more
+                guard["canaries"][cls] = "not evaluated: the contract reports a violation"
+                continue
             if not any(r_.get("unsupported") or r_.get("timeout") for (c_, _), r_ in results.items() if c_ == cls):
                 errors.append(dict(contract=cls, error="canary clause was not refuted: engine or contract may be unsound/vacuous", detail=guard["canaries"].get(cls)))
 
